@@ -1329,7 +1329,10 @@ func monC02(c *child.Ctx, replay json.RawMessage) {
 		for {
 			st = gen.HostileStream(r, false)
 			if n := len(st.Bytes()); len(st) >= 3 && len(st) <= 6 && n <= 400 {
-				break
+				// few deliveries: the consumer stalls before every one of them
+				if nm := len(runSequential(fixedStart, slog.LevelInfo, st.Bytes())); nm >= 3 && nm <= 8 {
+					break
+				}
 			}
 		}
 		for mode := 0; mode < 2; mode++ {
